@@ -144,7 +144,7 @@ func c14Mac(r *run.Run) {
 	})
 }
 
-var c14Strings = []string{"A", "Ünï-Latin1 é", "€ sign", "字体 CJK", "astral 𝔘𝔫𝔦 \U0010FFFF", "mixed\u0000nul", "�￾", "Why? https://example.com/?q=1", "?"}
+var c14Strings = []string{"line breaks: one\rtwo\r\nthree\nfour\ttab", "A", "Ünï-Latin1 é", "€ sign", "字体 CJK", "astral 𝔘𝔫𝔦 \U0010FFFF", "mixed\u0000nul", "�￾", "Why? https://example.com/?q=1", "?"}
 
 func c14Names(r *run.Run) {
 	apple, ms := name.VerifLanguageTables()
@@ -167,7 +167,7 @@ func c14Names(r *run.Run) {
 		return langs[i].id < langs[j].id
 	})
 	ids := []name.ID{0, 1, 2, 3, 4, 5, 6, 13, 14, 15, 19, 25, 26, 255, 256, 65535}
-	macStrings := []string{"A", "Ünï-Latin1 é", "€ sign ™ ƒ", "fi ligature ﬁ", "Why? https://example.com/?q=1", "?"}
+	macStrings := []string{"A", "Ünï-Latin1 é", "€ sign ™ ƒ", "fi ligature ﬁ", "Why? https://example.com/?q=1", "?", "line breaks: one\rtwo\r\nthree\nfour\ttab"}
 
 	r.Explore(explore.Config{Name: "C14.name-single"}, "every supported Macintosh and Windows language singly x name id x string: Decode(Encode(info)) == info; an independent parser finds the record under the platform language id of that tag with the string in the platform encoding",
 		func(c *explore.Ctx) {
@@ -263,7 +263,7 @@ func c14Names(r *run.Run) {
 			cnt++
 		}
 	}
-	r.Explore(explore.Config{Name: "C14.name-multi"}, "all subsets of a 6-language set (3 Mac, 3 Windows) x shared/distinct strings x storage size classes (strings of 1, 300 and 32767 UTF-16 units; totals below and above 64 KiB are refused or round-trip)",
+	r.Explore(explore.Config{Name: "C14.name-multi"}, "all subsets of a 6-language set (3 Mac, 3 Windows) x shared/distinct strings x storage size classes (strings of 1, 300 and 32767 UTF-16 units; every table in which all strings start within the first 64 KiB of the storage, whatever order the languages are stored in, comes back intact)",
 		func(c *explore.Ctx) {
 			info := &name.Info{Mac: name.Tables{}, Windows: name.Tables{}}
 			size := explore.Pick(c, "string size", 1, 300, 20000)
@@ -335,8 +335,63 @@ func c14Names(r *run.Run) {
 					}
 				}
 			}
-			if storage > 65535 {
-				// the name table has 16-bit storage offsets: more than 64 KiB of distinct strings cannot be represented
+			// The name table has 16-bit storage offsets: a string that starts beyond 64 KiB cannot be represented.
+			// The encoder stores the strings language by language (Macintosh first, in the order of its
+			// language tables, which is not specified), name ids ascending, identical byte strings once:
+			// if no order of the languages puts the start of a string beyond 0xFFFF the table is
+			// representable and has to come back; otherwise the encoder ought to refuse (known finding).
+			perms := func(xs []string) [][]string {
+				var out [][]string
+				var rec func(a []string, k int)
+				rec = func(a []string, k int) {
+					if k == len(a) {
+						out = append(out, append([]string{}, a...))
+						return
+					}
+					for i := k; i < len(a); i++ {
+						a[k], a[i] = a[i], a[k]
+						rec(a, k+1)
+						a[k], a[i] = a[i], a[k]
+					}
+				}
+				rec(append([]string{}, xs...), 0)
+				return out
+			}
+			var macTags, winTags []string
+			for tag := range info.Mac {
+				macTags = append(macTags, tag)
+			}
+			for tag := range info.Windows {
+				winTags = append(winTags, tag)
+			}
+			sort.Strings(macTags)
+			sort.Strings(winTags)
+			representable := true
+			for _, pm := range perms(macTags) {
+				for _, pw := range perms(winTags) {
+					seen := map[string]bool{}
+					pos := 0
+					add := func(key string, n int) {
+						if seen[key] {
+							return
+						}
+						seen[key] = true
+						if pos > 0xFFFF {
+							representable = false
+						}
+						pos += n
+					}
+					for _, tag := range pm {
+						add("m"+info.Mac[tag].Copyright, len(info.Mac[tag].Copyright))
+						add("m"+info.Mac[tag].Family, len(info.Mac[tag].Family))
+					}
+					for _, tag := range pw {
+						add("w"+info.Windows[tag].Copyright, 2*len(info.Windows[tag].Copyright))
+						add("w"+info.Windows[tag].Family, 2*len(info.Windows[tag].Family))
+					}
+				}
+			}
+			if storage > 65535 && !representable {
 				bad := false
 				for tag, t := range info.Mac {
 					bad = bad || back.Mac[tag] == nil || back.Mac[tag].Family != t.Family || back.Mac[tag].Copyright != t.Copyright
